@@ -10,6 +10,8 @@ from ..core import AnalysisError, finish, unparse
 from ..constfold import Folder, EnumMember
 from ..dataflow import Flow, chain, call_name
 from ..poly import Poly
+from ..terms import Terms, reify, plain, match, V, ANY, show, subterms, \
+    yields, mk_cmp, is_none
 from ..util import calls_in, qual, formals, returns_of, parse_expr, \
     raise_name, raises_of
 
@@ -91,123 +93,132 @@ def _index_polys(fl, sub):
     return (fl.sym(sub.value.slice, node), fl.sym(sub.slice, node), node)
 
 
+def _wp(e):
+    for n in ast.walk(e):
+        for c in ast.iter_child_nodes(n):
+            c._parent = n
+    ast.fix_missing_locations(e)
+    return e
+
+
+def _private_helpers(program):
+    """Module-level private functions of rig.geometry (inlined when called
+    and expression-like)."""
+    out = {}
+    for st in program.module(MOD).tree.body:
+        if isinstance(st, ast.FunctionDef) and st.name.startswith("_"):
+            out[st.name] = st
+    return out
+
+
 def r2_functions(program, folder, rep, eths):
+    helpers = _private_helpers(program)
+    TABLE = ("global", "SPINN5_ETH_OFFSET")
     for fname in ("spinn5_local_eth_coord", "spinn5_chip_coord"):
         fn = program.get("%s:%s" % (MOD, fname))
         inst = qual(fn)
         fl = Flow(fn)
+        T = Terms(fn, helpers=helpers)
         ps = formals(fn)
-        if fname == "spinn5_local_eth_coord":
-            if len(ps) != 6:
-                raise AnalysisError("%s signature changed" % fname)
-            x, y, w, h, rx, ry = [Poly.atom(p) for p in ps]
-        else:
-            if len(ps) != 4:
-                raise AnalysisError("%s signature changed" % fname)
-            x, y, rx, ry = [Poly.atom(p) for p in ps]
-        subs = [n for n in ast.walk(fn) if isinstance(n, ast.Subscript) and
-                isinstance(n.value, ast.Subscript) and
-                chain(n.value.value) == "SPINN5_ETH_OFFSET"]
-        if len(subs) != 1:
+        P_ = lambda n: ("param", n)      # noqa: E731
+        if len(ps) != (6 if fname == "spinn5_local_eth_coord" else 4):
+            raise AnalysisError("%s signature changed" % fname)
+        rets = [T.term(r.value) for r in returns_of(fn)
+                if r.value is not None]
+        if len(rets) != 1 or rets[0][0] != "tuple" or len(rets[0]) != 3:
+            raise AnalysisError("%s: return is no longer a pair" % fname)
+        cells = set()
+        for st_ in subterms(rets[0]):
+            m = match(("item", ("item", TABLE, V("i")), V("j")), st_)
+            if m is not None:
+                cells.add((st_, m["i"], m["j"]))
+        if len(cells) != 1:
             raise AnalysisError("%s no longer indexes SPINN5_ETH_OFFSET "
                                 "once" % fname)
-        i, j, node = _index_polys(fl, subs[0])
+        CELL, it, jt = list(cells)[0]
+
+        def poly(t):
+            return fl.sym(_wp(reify(plain(t))), fl.cfg.entry)
+        x, y = Poly.atom(ps[0]), Poly.atom(ps[1])
+        rx, ry = Poly.atom(ps[-2]), Poly.atom(ps[-1])
+        i, j = poly(it), poly(jt)
         want_i = fl.mod(y - ry, Poly.const(12))
         want_j = fl.mod(x - rx, Poly.const(12))
         rep.check(i == want_i, "C19-R2", inst,
                   "row index of SPINN5_ETH_OFFSET is (y - root_y) % 12",
-                  construct="row index %r" % (i,), node=subs[0],
+                  construct="row index %r" % (i,), node=fn,
                   fail="row index is %r, the table is indexed [y][x] relative "
                        "to the root chip: expected %r" % (i, want_i))
         rep.check(j == want_j, "C19-R2", inst,
                   "column index of SPINN5_ETH_OFFSET is (x - root_x) % 12",
-                  construct="column index %r" % (j,), node=subs[0],
+                  construct="column index %r" % (j,), node=fn,
                   fail="column index is %r, expected %r" % (j, want_j))
-        # the (dx, dy) unpacking order
-        asg = subs[0]._parent
-        if not (isinstance(asg, ast.Assign) and
-                isinstance(asg.targets[0], ast.Tuple) and
-                len(asg.targets[0].elts) == 2):
-            raise AnalysisError("%s: offset is no longer unpacked as a pair"
-                                % fname)
-        dxn, dyn = [chain(t) for t in asg.targets[0].elts]
-        rets = returns_of(fn)
-        if len(rets) != 1 or not isinstance(rets[0].value, ast.Tuple) or \
-                len(rets[0].value.elts) != 2:
-            raise AnalysisError("%s: return is no longer a pair" % fname)
-        rn = fl.cfg.node_of(rets[0])
-        got = [fl.sym(e, rn) for e in rets[0].value.elts]
-        pnames = formals(fn)
+        INT = lambda k: ("call", ("global", "int"),       # noqa: E731
+                         (("comp", CELL, k),), ())
         if fname == "spinn5_local_eth_coord":
-            spec = ["(%s + int(%s)) %% %s" % (pnames[0], dxn, pnames[2]),
-                    "(%s + int(%s)) %% %s" % (pnames[1], dyn, pnames[3])]
+            spec = [("binop", "Mod", ("binop", "Add", P_(ps[0]), INT(0)),
+                     P_(ps[2])),
+                    ("binop", "Mod", ("binop", "Add", P_(ps[1]), INT(1)),
+                     P_(ps[3]))]
+            text = ["(x + int(dx)) % w", "(y + int(dy)) % h"]
         else:
-            spec = ["-int(%s)" % dxn, "-int(%s)" % dyn]
-        for k, (g, s) in enumerate(zip(got, spec)):
-            want = fl.sym(parse_expr(s), rn)
-            rep.check(g == want, "C19-R2", inst,
-                      "result[%d] = %s" % (k, s),
-                      construct="result %d %r" % (k, g), node=rets[0],
-                      fail="result[%d] is %r, expected %s" % (k, g, s))
+            spec = [("unop", "USub", INT(0)), ("unop", "USub", INT(1))]
+            text = ["-int(dx)", "-int(dy)"]
+        for k in (0, 1):
+            g, w_ = poly(rets[0][1 + k]), poly(spec[k])
+            rep.check(g == w_, "C19-R2", inst,
+                      "result[%d] = %s" % (k, text[k]),
+                      construct="result %d %r" % (k, g), node=fn,
+                      fail="result[%d] is %r, expected %s" % (k, g, text[k]))
 
     # spinn5_eth_coords
     fn = program.get(MOD + ":spinn5_eth_coords")
     inst = qual(fn)
     fl = Flow(fn)
+    T = Terms(fn, helpers=helpers)
     ps = formals(fn)
     if len(ps) != 4:
         raise AnalysisError("spinn5_eth_coords signature changed")
     width, height, rx, ry = [Poly.atom(p) for p in ps]
-    # the constant triple iterated over
-    triples = []
-    for n in ast.walk(fn):
-        if isinstance(n, ast.For) and isinstance(n.iter, (ast.Tuple,
-                                                          ast.List)):
-            try:
-                triples.append((n, folder.eval(n.iter, {}, fn._module)))
-            except AnalysisError:
-                pass
-    if len(triples) != 1:
+    ys = yields(T)
+    if len(ys) != 1 or ys[0][1][0] != "tuple" or len(ys[0][1]) != 3:
+        raise AnalysisError("spinn5_eth_coords: yield shape changed")
+    yn, yt, yfacts = ys[0]
+
+    def poly(t):
+        return fl.sym(_wp(reify(plain(t))), fl.cfg.entry)
+    # the per-cell board origins: a constant collection iterated over
+    origin = [st_ for st_ in subterms(yt) if st_[0] == "comp" and
+              st_[1][0] == "phi"]
+    trips = set(st_[1] for st_ in origin)
+    if len(trips) != 1:
         raise AnalysisError("spinn5_eth_coords: cannot find the Ethernet "
                             "offsets loop")
-    loop, trip = triples[0]
-    rep.check(eths is not None and set(map(tuple, trip)) == set(ETH) and
-              set(map(tuple, trip)) == eths and len(trip) == 3, "C19-R2",
+    PHI = list(trips)[0]
+    try:
+        trip = [tuple(e[1] for e in x[1:]) for x in PHI[1:]]
+    except Exception:
+        raise AnalysisError("spinn5_eth_coords: Ethernet offsets do not fold")
+    rep.check(eths is not None and set(trip) == set(ETH) and
+              set(trip) == eths and len(trip) == 3, "C19-R2",
               inst, "Ethernet positions per 12x12 cell %s equal the ones the "
-              "offset table points to" % (sorted(map(tuple, trip)),),
-              construct="eth triple %s" % (sorted(map(tuple, trip)),),
-              node=loop)
-    dxn, dyn = [chain(t) for t in loop.target.elts]
-    # yields
-    ys = [n for n in ast.walk(fn) if isinstance(n, ast.Yield)]
-    if len(ys) != 1 or not isinstance(ys[0].value, ast.Tuple):
-        raise AnalysisError("spinn5_eth_coords: yield shape changed")
-    yn = fl.cfg.node_containing(ys[0])
-    nx, ny = [fl.sym(e, yn) for e in ys[0].value.elts]
-    # enclosing cell loops
-    cell = {}
-    p = loop
-    while p is not None and p is not fn:
-        p = getattr(p, "_parent", None)
-        if isinstance(p, ast.For) and isinstance(p.iter, ast.Call) and \
-                unparse(p.iter.func) == "range" and len(p.iter.args) == 3:
-            a = [fl.sym(z, fl.cfg.loop_head[id(p)]) for z in p.iter.args]
-            cell[chain(p.target)] = (p, a)
-    if len(cell) != 2:
-        raise AnalysisError("spinn5_eth_coords: cannot find the two cell "
-                            "loops")
+              "offset table points to" % (sorted(trip),),
+              construct="eth triple %s" % (sorted(trip),), node=fn)
+    cellv = [st_ for st_ in subterms(yt) if st_[0] == "elem" and
+             st_[1][0] == "call" and st_[1][1] == ("global", "range") and
+             len(st_[1][2]) == 3]
     wpoly = fl.fdiv(width + 11, Poly.const(12)) * 12
     hpoly = fl.fdiv(height + 11, Poly.const(12)) * 12
-    # identify which loop variable goes with x: the one whose range bound is w
-    for (which, size, root, dn, got) in (("x", wpoly, rx, dxn, nx),
-                                         ("y", hpoly, ry, dyn, ny)):
+    for k, (which, size, root) in enumerate((("x", wpoly, rx),
+                                             ("y", hpoly, ry))):
+        got = poly(yt[1 + k])
         ok = False
-        detail = repr(got)
-        for var, (lp, a) in cell.items():
+        for cv in set(cellv):
+            a = [poly(z) for z in cv[1][2]]
             if a[0] == Poly.const(0) and a[1] == size and \
                     a[2] == Poly.const(12):
-                v = fl.symvar(var, yn)
-                d = fl.symvar(dn, yn)
+                v = poly(cv)
+                d = poly(("comp", PHI, k))
                 for r in (root, fl.mod(root, Poly.const(12))):
                     if got == fl.mod(v + d + r, size):
                         ok = True
@@ -215,18 +226,25 @@ def r2_functions(program, folder, rep, eths):
                   "yielded %s = (cell origin + board offset + root_%s) %% "
                   "(size rounded up to a multiple of 12), cell origins "
                   "range(0, size, 12)" % (which, which),
-                  construct="eth coord %s %s" % (which, detail),
-                  node=ys[0],
-                  fail="yielded %s coordinate is %s; expected (cell + offset "
+                  construct="eth coord %s %r" % (which, got), node=fn,
+                  fail="yielded %s coordinate is %r; expected (cell + offset "
                        "+ root) %% rounded size with cells range(0, size, "
-                       "12)" % (which, detail))
-    # the filter: yield only inside the machine
-    facts = fl.constraints(yn)
-    from ..poly import lt, entails
-    rep.check(entails(facts, [lt(nx, width), lt(ny, height)]), "C19-R2",
-              inst, "a coordinate is yielded only if it is < width and < "
-              "height", construct="range filter", node=ys[0])
-    rep.floor("C19-R2", 11)
+                       "12)" % (which, got))
+    okf = (mk_cmp("Lt", yt[1], ("param", ps[0])), True) in yfacts and \
+        (mk_cmp("Lt", yt[2], ("param", ps[1])), True) in yfacts
+    rep.check(okf, "C19-R2", inst, "a coordinate is yielded only if it is "
+              "< width and < height", construct="range filter", node=fn)
+    # a generator must not be wrapped by a result cache
+    for f_ in (fn,):
+        decs = [unparse(d) for d in f_.decorator_list]
+        rep.check(not any("cache" in d or "memo" in d for d in decs),
+                  "C19-R2", inst, "the generator is not wrapped by a result "
+                  "cache (a cached generator object is exhausted after its "
+                  "first use)", construct="decorators %s" % decs, node=f_,
+                  fail="spinn5_eth_coords is a generator wrapped by %s: the "
+                       "second call with the same arguments returns the "
+                       "same, already exhausted, generator" % decs)
+    rep.floor("C19-R2", 12)
 
 
 def r3_fpga(program, folder, rep):
@@ -281,36 +299,25 @@ def r3_fpga(program, folder, rep):
 
     # spinn5_fpga_link
     fn = program.get(MOD + ":spinn5_fpga_link")
-    fl = Flow(fn)
+    T = Terms(fn, helpers=_private_helpers(program))
     ps = formals(fn)
     if len(ps) != 5:
         raise AnalysisError("spinn5_fpga_link signature changed")
-    cc = calls_in(fn, "spinn5_chip_coord")
-    gets = [c for c in calls_in(fn, "get")
-            if chain(call_name(c)[1]) == "SPINN5_FPGA_LINKS"]
+    P_ = lambda n: ("param", n)      # noqa: E731
+    CC = ("call", ("global", "spinn5_chip_coord"),
+          (P_(ps[0]), P_(ps[1]), P_(ps[3]), P_(ps[4])), ())
+    CCK = ("call", ("global", "spinn5_chip_coord"), (P_(ps[0]), P_(ps[1])),
+           (("root_x", P_(ps[3])), ("root_y", P_(ps[4]))))
+    rets = [plain(T.term(r.value)) for r in returns_of(fn)
+            if r.value is not None]
     ok = False
-    if len(cc) == 1 and len(gets) == 1:
-        a = [chain(z) for z in cc[0].args]
-        kws = {k.arg: chain(k.value) for k in cc[0].keywords}
-        full = a + [kws.get(n) for n in ("root_x", "root_y")[
-            max(0, len(a) - 2):]]
-        args_ok = full[:4] == [ps[0], ps[1], ps[3], ps[4]]
-        # the key: (on-board x, on-board y, link)
-        key = gets[0].args[0] if gets[0].args else None
-        asg = cc[0]._parent
-        key_ok = False
-        if isinstance(key, ast.Tuple) and len(key.elts) == 3 and \
-                isinstance(asg, ast.Assign) and \
-                isinstance(asg.targets[0], ast.Tuple):
-            tnames = [chain(t) for t in asg.targets[0].elts]
-            knames = [chain(k) for k in key.elts]
-            gn = fl.cfg.node_containing(gets[0])
-            an = fl.cfg.node_containing(cc[0])
-            # the key's x,y must be the unpacked result (reaching def check)
-            key_ok = knames[:2] == tnames and knames[2] == ps[2] and all(
-                [d.node for d in fl.reaching(n, gn)] == [an]
-                for n in tnames)
-        ok = args_ok and key_ok
+    if len(rets) == 1:
+        for cc in (CC, CCK):
+            key = ("tuple", ("comp", cc, 0), ("comp", cc, 1), P_(ps[2]))
+            if rets[0] in (("get", ("global", "SPINN5_FPGA_LINKS"), key),
+                           ("get", ("global", "SPINN5_FPGA_LINKS"), key,
+                            ("const", None))):
+                ok = True
     rep.check(ok, "C19-R3", qual(fn),
               "spinn5_fpga_link looks up (on-board x, on-board y, link) where "
               "the on-board coordinate is spinn5_chip_coord(x, y, root_x, "
@@ -341,26 +348,34 @@ def r4_dimensions(program, rep):
               "result = (12 * (triads // h), 12 * h) with triads = "
               "num_boards // 3", construct="dimension scaling (%r, %r)" % (
                   w12, h12), node=last[0])
-    # loop exit only at an exact factor: the break is guarded by
-    # triads % h == 0
-    brk = [n for n in ast.walk(fn) if isinstance(n, ast.Break)]
+    # the factor search ends only at an exact factor: on every path to the
+    # return, triads % h == 0 is known for the h that is used
+    T = Terms(fn)
     okb = False
-    for b in brk:
-        bn = None
-        for n in fl.cfg.nodes:
-            if n.ast is b:
-                bn = n
-        if bn is not None:
-            for cond, pol, a in fl.facts(bn):
-                if pol and isinstance(cond, ast.Compare) and \
-                        isinstance(cond.ops[0], ast.Eq):
-                    l = fl.sym(cond.left, a)
-                    r = fl.sym(cond.comparators[0], a)
-                    hv = [x for x in (l - r).atoms()]
-                    if r == Poly.const(0) and any(
-                            fl.atom_info.get(x, ("",))[0] == "mod" and
-                            fl.atom_info[x][1] == triads for x in hv):
-                        okb = True
+    if ok:
+        rn_t = T.cfg.node_of(last[0])
+        paths = T.facts_by_path(rn_t)
+
+        def factor_fact(facts):
+            for t, p in facts:
+                if p and t[0] == "cmp" and t[1] == "Eq" and \
+                        ("const", 0) in (t[2], t[3]):
+                    o = t[3] if t[2] == ("const", 0) else t[2]
+                    if o[0] == "binop" and o[1] == "Mod":
+                        try:
+                            if fl.sym(_wp(reify(plain(o[2]))),
+                                      fl.cfg.entry) == triads:
+                                return True
+                        except AnalysisError:
+                            pass
+            return False
+        okb = bool(paths) and all(factor_fact(f) for _, f in paths)
+        if not okb:
+            # a for loop left by break: every break is under the factor test
+            brk = [n for n in ast.walk(fn) if isinstance(n, ast.Break)]
+            okb = bool(brk) and all(
+                factor_fact(T.all_facts(T.cfg.stmt_node[id(b_)]))
+                for b_ in brk if id(b_) in T.cfg.stmt_node)
     rep.check(okb, "C19-R4", inst, "the factor search stops only where "
               "triads % h == 0 (so w * h == triads)",
               construct="factor search exit", node=fn)
